@@ -9,7 +9,8 @@ by every `exit…` handler, in the order the handlers put children and attribute
   prefixes / `start` / `value` / `fixed`, the equations of every class of the flat tree).
 * `encode`: `none` = generation raises — a node class without handler in a position a handler looks up
   (`KeyError`), or a `start` / `value` that is not a plain literal (`AttributeError` on `.value`) unless the
-  tree builds attribute values from the expression's own element (`Cfg.exprAttrs`, proposed fix C25-1).
+  tree builds attribute values from the expression's own element (`Cfg.exprAttrs`, proposed fix C25-1), or —
+  with proposed fix C25-2 (`Cfg.rejectElse`) — a when-equation with `elsewhen` branches.
 * `decode`: a strict reader of exactly the elements `encode` produces.
 -/
 namespace PymocaVerif.XmlTree
@@ -55,13 +56,14 @@ structure Flat where
   classes : List Cls
   deriving Repr, BEq
 
-/-- What the tree does with `start` / `value`. -/
+/-- Two points on which the tree may differ (proposed fixes C25-1, C25-2). -/
 structure Cfg where
-  exprAttrs : Bool   -- attribute values are emitted as expression elements (any supported expression)
+  exprAttrs : Bool    -- `start` / `value` are emitted as the expression's own element (any supported expression)
+  rejectElse : Bool   -- a when-equation with `elsewhen` branches makes generation raise instead of losing them
   deriving Repr, DecidableEq
 
-def Cfg.asIs : Cfg := ⟨false⟩
-def Cfg.exprs : Cfg := ⟨true⟩
+def Cfg.asIs : Cfg := ⟨false, false⟩
+def Cfg.fixed : Cfg := ⟨true, true⟩
 
 /-! ## encode -/
 
@@ -134,14 +136,15 @@ def okEs : List Expr → Bool
 end
 
 mutual
-def okQ : Eqn → Bool
+def okQ (cfg : Cfg) : Eqn → Bool
   | .equal l r => okE l && okE r
   | .call _ args => okEs args
-  | .when c b ec eb => okE c && okQs b && okEs ec && okQs eb
+  | .when c b ec eb =>
+    okE c && okQs cfg b && okEs ec && okQs cfg eb && (!cfg.rejectElse || (ec.isEmpty && eb.isEmpty))
   | .other _ => false
-def okQs : List Eqn → Bool
+def okQs (cfg : Cfg) : List Eqn → Bool
   | [] => true
-  | q :: qs => okQ q && okQs qs
+  | q :: qs => okQ cfg q && okQs cfg qs
 end
 
 /-- `getattr(tree, f).value`: only a `Primary` has `.value` -/
@@ -151,7 +154,7 @@ def okAttr (cfg : Cfg) : Option Expr → Bool
   | some e => cfg.exprAttrs && okE e
 
 def okVar (cfg : Cfg) (v : Var) : Bool := okAttr cfg v.start && okAttr cfg v.value
-def okCls (cfg : Cfg) (c : Cls) : Bool := c.vars.all (okVar cfg) && okQs c.eqs
+def okCls (cfg : Cfg) (c : Cls) : Bool := c.vars.all (okVar cfg) && okQs cfg c.eqs
 
 /-- `backends.xml.generator.generate` on a flat tree: `none` = raises. -/
 def encode (cfg : Cfg) (m : Flat) : Option Xml :=
